@@ -8,11 +8,17 @@
   every run that (1) an independent Go reference encoder produces the same bytes as `refEncode`, (2) the real
   `ply.ReadMesh` and the model reader agree on those bytes, (3) the implementation's result equals `meaning f`.
 
-  Proved here (for ALL inputs): the reader's location arithmetic — for ANY order of the header's properties the
-  location computed for a property is the sum of the strides of the properties before it, and decoding there yields
-  that property's stored value (binary, both byte orders; ASCII column = header index); header line reading under LF
-  and CRLF; quad → fan; the mixed-type-group counterexample.  The composed statement `ply_reads_spec_full` is kept as
-  a `def … : Prop` (residue).
+  Proved here (for ALL inputs, ARBITRARY coding — the bundle has no laws, statements are about decode∘encode):
+  * over the REFERENCE encoding (`Datum.bin`, `specBody`): decoding at the header-computed offset yields the i-th datum for
+    any property order / type mix; for representable data that is `Datum.val`; the whole binary vertex block under the
+    reader's vertex loop for any list of located readers; an unrecognised property gets its own located scalar reader
+    through `addUnclaimed`;
+  * scalar-reader location arithmetic (binary prefix sums / ASCII column), LF and CRLF header lines, quad / triangle
+    emission with per-corner UVs, rejection of other list sizes;
+  * counterexamples (general with `≠` under the stated inequality, and concrete instances): mixed-type group, ASCII `int`
+    through float32, ASCII uchar scalar not normalised.
+  NOT proved: that the vector claim scan `buildVec` yields a located reader, header keyword parsing from bytes, the face
+  loop, mesh assembly = `meaning`, ASCII; the composed statement `ply_reads_spec_full` stays a `def … : Prop`.
 -/
 import PolyVerif.Model.Ply
 import PolyVerif.Model.PlySpec
@@ -45,26 +51,66 @@ theorem ply_column_is_header_index (attr name : Bytes) (props : List (Bytes × S
 example : buildV1 true [(nm "b", .uchar), (nm "w", .double), (nm "a", .int)] (nm "a") (nm "a")
     = some ⟨nm "a", [nm "a"], [9], some .int⟩ := by decide
 
-/-- vertex `i` carries exactly the value of record `i`: whatever the order and types of the properties, decoding a
-reference-encoded record at the offset computed from the header yields the stored value of that property -/
-theorem ply_record_field_any_layout (c : Coding α) (e : Endian) (dim : Nat)
-    (tys : List SType) (vals : List α) (rec pre post : Bytes) (i : Nat) (hi : i < tys.length)
-    (hv : vals.length = tys.length) (henc : encRecordBin c e tys vals = .ok rec) :
-    decScalarBin c e dim tys[i] (pre ++ rec ++ post) (pre.length + offsetOf tys i)
-      = .ok (quantBin c dim tys[i] (vals[i]'(by omega))) :=
-  field_at_offset c e dim tys vals rec pre post i hi hv henc
+/-! ### the reference encoding under the reader (binary, both byte orders)
 
-/-- an extra unrecognised scalar becomes a scalar attribute read from its own field (binary) -/
-theorem ply_unclaimed_scalar_reads_own_field (c : Coding α) (e : Endian) (name : Bytes)
-    (props : List (Bytes × SType)) (vals : List α) (rec post : Bytes) (i : Nat) (hi : i < props.length)
-    (hname : props[i].1 = name) (hfirst : ∀ j (hj : j < i), (props[j]'(by omega)).1 ≠ name)
-    (hv : vals.length = props.length) (henc : encRecordBin c e (props.map (·.2)) vals = .ok rec) :
-    ∃ b, buildV1 true props name name = some b ∧ b.attr = name ∧
-      b.readBin c e (rec ++ post) = .ok [quantBin c 1 props[i].2 (vals[i]'(by omega))] := by
-  refine ⟨_, buildV1_spec true name name props i hi hname hfirst, rfl, ?_⟩
-  have h := field_at_offset c e 1 (props.map (·.2)) vals rec [] post i (by simpa using hi) (by simpa using hv) henc
-  simp only [List.nil_append, List.length_nil, Nat.zero_add, List.getElem_map] at h
-  simp [Built.readBin, locOf_binary, h, pure, Except.pure, bind, Except.bind]
+These are about `PlySpec.refEncode`'s own field layout (`Datum.bin`, `specBody`) — NOT about the library writer's model. -/
+
+/-- vertex `i` carries exactly the value of record `i`, one field: whatever the order and types of the properties,
+decoding the REFERENCE-encoded record at the offset computed from the header types yields the `i`-th datum -/
+theorem ply_spec_field_any_layout (c : Coding α) (e : Endian) (dim : Nat) (r : List (Datum α)) (pre post : Bytes)
+    (i : Nat) (hi : i < r.length) :
+    decScalarBin c e dim r[i].ty (pre ++ (r.map (Datum.bin c e)).flatten ++ post)
+      (pre.length + offsetOf (r.map Datum.ty) i) = .ok (datumRead c dim r[i]) :=
+  spec_field_at_offset c e dim r pre post i hi
+
+/-- … and for representable data (in-range integer, float32/float64 that survives its own coding; not through the
+2-vector reader) the decoded value is the value the datum denotes (`Datum.val`: b/255, i, x) -/
+theorem ply_spec_field_value (c : Coding α) (dim : Nat) (hdim : dim ≠ 2) (d : Datum α) (h : Datum.Exact c d) :
+    datumRead c dim d = d.val c :=
+  datumRead_eq_val c dim hdim d h
+
+example : datumRead toyCoding 3 (.u8 255) = (Datum.u8 255).val toyCoding ∧ (Datum.u8 255).val toyCoding = 1 := by decide
+example : Datum.Exact toyCoding (.f32 258) := by show toyCoding.unf32 (toyCoding.f32 258) = 258; decide
+
+/-- THE WHOLE VERTEX BLOCK of a reference-encoded binary file: for any property order / type mix and any number of
+records, the reader's vertex loop run on `specBody c f` decodes, record by record, exactly the data of the components
+every located reader claims (`rowOf`), and stops exactly where the face data starts -/
+theorem ply_spec_vertex_block (c : Coding α) (f : SpecFile α) (hf : f.format ≠ .ascii)
+    (htyped : ∀ r ∈ f.verts, r.map Datum.ty = f.vprops.map (·.ty))
+    (bl : List (Built × List Nat)) (hbl : ∀ p ∈ bl, Located (f.vprops.map (·.ty)) p.1 p.2) :
+    ∃ rest, specBody c f = (f.verts.map (fun r => (r.map (Datum.bin c f.format.endian)).flatten)).flatten ++ rest ∧
+      readVertsBin c f.format.endian (((f.vprops.map (·.ty)).map SType.size).sum) (bl.map (·.1)) f.verts.length
+        (specBody c f) = .ok (f.verts.map (rowOf c bl), rest) := by
+  cases hfmt : f.format with
+  | ascii => exact absurd hfmt hf
+  | le =>
+    refine ⟨_, by simp only [specBody, hfmt]; rfl, ?_⟩
+    simp only [specBody, hfmt]
+    exact spec_vertex_block c _ _ bl hbl f.verts _ htyped
+  | be =>
+    refine ⟨_, by simp only [specBody, hfmt]; rfl, ?_⟩
+    simp only [specBody, hfmt]
+    exact spec_vertex_block c _ _ bl hbl f.verts _ htyped
+
+/-- AN UNRECOGNISED PROPERTY GETS A READER, THROUGH `addUnclaimed` (the reader.go:494-512 loop): if none of the readers
+built from the configured groups claims the property at header position `i` (names pairwise distinct), the final reader
+list contains the scalar reader named after the property, located at the sum of the strides before it … -/
+theorem ply_unclaimed_property_gets_reader (binary : Bool) (props : List (Bytes × SType)) (built : List Built)
+    (hnd : (props.map (·.1)).Nodup) (i : Nat) (hi : i < props.length)
+    (hun : ∀ b ∈ built, b.claims props[i].1 = false) :
+    (⟨props[i].1, [props[i].1], [locOf binary props i], if binary then some props[i].2 else none⟩ : Built)
+      ∈ addUnclaimed binary props built :=
+  addUnclaimed_adds binary props built hnd i hi hun
+
+/-- … and that reader is located at the property's own field, so by `ply_spec_vertex_block` its column is
+`datumRead` of the `i`-th datum of every record (an attribute of the property's own name) -/
+theorem ply_unclaimed_reader_located (props : List (Bytes × SType)) (i : Nat) (hi : i < props.length) :
+    Located (props.map (·.2)) ⟨props[i].1, [props[i].1], [locOf true props i], some props[i].2⟩ [i] where
+  ty := ⟨props[i].2, rfl, by intro j hj; simp at hj; subst hj; exact ⟨by simpa using hi, by simp⟩⟩
+  offs := by simp [locOf_binary]
+
+example : (⟨nm "q", [nm "q"], [4], some .uchar⟩ : Built) ∈
+    addUnclaimed true [(nm "x", .float), (nm "q", .uchar)] [] := by decide
 
 /-! ### header lines: LF and CRLF -/
 
@@ -75,19 +121,25 @@ theorem ply_header_line_lf_crlf (l rest : Bytes) (h : ∀ b ∈ l, b ≠ 10 ∧ 
 
 /-! ### quads -/
 
-/-- each quad contributes the two fan triangles over its listed vertices (specification side) … -/
+/-- (helper, `rfl` on the specification side) each quad contributes the two fan triangles over its listed vertices … -/
 theorem fan_quad (a b c d : Nat) : fan [a, b, c, d] = [(a : Int), b, c, a, c, d] := rfl
 
-/-- … and the reader emits exactly those for a 4-entry index list (with the per-corner UVs of the same corners) -/
-theorem ply_reader_quad_fan (i0 i1 i2 i3 : Int) (t : List α) (ht : t.length = 8) :
-    ∃ uv, emitFace 4 false (⟨[i0, i1, i2, i3], t⟩ : FaceBufs α) = .ok ([i0, i1, i2, i0, i2, i3], uv) := by
-  match t, ht with
-  | [t0, t1, t2, t3, t4, t5, t6, t7], _ => exact ⟨[], by simp [emitFace]⟩
+/-- … and the reader emits exactly those for a 4-entry index list, with the per-corner texture coordinates of the same
+corners: (0,1,2) and (0,2,3) -/
+theorem ply_reader_quad_fan (i0 i1 i2 i3 : Int) (t0 t1 t2 t3 t4 t5 t6 t7 : α) :
+    emitFace 4 true (⟨[i0, i1, i2, i3], [t0, t1, t2, t3, t4, t5, t6, t7]⟩ : FaceBufs α)
+      = .ok ([i0, i1, i2, i0, i2, i3], [[t0, t1], [t2, t3], [t4, t5], [t0, t1], [t4, t5], [t6, t7]]) := by
+  simp [emitFace]
 
-theorem ply_reader_triangle (i0 i1 i2 i3 : Int) (t : List α) (ht : t.length = 8) :
-    ∃ uv, emitFace 3 false (⟨[i0, i1, i2, i3], t⟩ : FaceBufs α) = .ok ([i0, i1, i2], uv) := by
-  match t, ht with
-  | [t0, t1, t2, t3, t4, t5, t6, t7], _ => exact ⟨[], by simp [emitFace]⟩
+theorem ply_reader_triangle (i0 i1 i2 i3 : Int) (t0 t1 t2 t3 t4 t5 t6 t7 : α) :
+    emitFace 3 true (⟨[i0, i1, i2, i3], [t0, t1, t2, t3, t4, t5, t6, t7]⟩ : FaceBufs α)
+      = .ok ([i0, i1, i2], [[t0, t1], [t2, t3], [t4, t5]]) := by
+  simp [emitFace]
+
+/-- without a `texcoord` property no UVs are produced; other list sizes are rejected -/
+theorem ply_reader_face_other (points : Int) (b : FaceBufs α) (h : points < 3 ∨ points > 4) :
+    emitFace points false b = .error .err ∧ emitFace points true b = .error .err := by
+  simp [emitFace, h]
 
 /-! ### finding: a recognised group with mixed scalar types is not recognised -/
 
@@ -115,12 +167,25 @@ theorem ply_ascii_int_through_float32 (c : Coding α) (e : Endian) (q : Bytes) (
     (hi : -(2 ^ 31 : Int) ≤ i ∧ i < 2 ^ 31) (hparse : c.parseF (showInt i) = some x) :
     ∃ ba bb, buildV1 false [(q, .int)] q q = some ba ∧ buildV1 true [(q, .int)] q q = some bb ∧
       ba.readAscii c [showInt i] = .ok [x] ∧
-      bb.readBin c e (put32 e (ofInt32 i)) = .ok [c.ofInt i] := by
-  refine ⟨⟨q, [q], [0], none⟩, ⟨q, [q], [0], some .int⟩, by simp [buildV1, buildV1.go], by simp [buildV1, buildV1.go], ?_, ?_⟩
+      bb.readBin c e (put32 e (ofInt32 i)) = .ok [c.ofInt i] ∧
+      (x ≠ c.ofInt i → ba.readAscii c [showInt i] ≠ bb.readBin c e (put32 e (ofInt32 i))) := by
+  have hg := put32_get32 e (ofInt32 i) []
+  simp at hg
+  refine ⟨⟨q, [q], [0], none⟩, ⟨q, [q], [0], some .int⟩, by simp [buildV1, buildV1.go], by simp [buildV1, buildV1.go], ?_, ?_, ?_⟩
   · simp [Built.readAscii, hparse, pure, Except.pure, bind, Except.bind]
-  · have := put32_get32 e (ofInt32 i) []
-    simp at this
-    simp [Built.readBin, decScalarBin, this, toInt32_ofInt32 i hi, pure, Except.pure, bind, Except.bind]
+  · simp [Built.readBin, decScalarBin, hg, toInt32_ofInt32 i hi, pure, Except.pure, bind, Except.bind]
+  · intro hne
+    simp [Built.readAscii, Built.readBin, decScalarBin, hg, toInt32_ofInt32 i hi, hparse, pure, Except.pure, bind, Except.bind, hne]
+
+/-- a real counterexample (concrete coding whose "float32" parser keeps 24 bits: 16777217 → 16777216): the ASCII and the
+binary file of `property int id` with the value 16777217 load to different numbers -/
+def narrowCoding : Coding Nat := { toyCoding with parseF := fun s => (parseDigits s 0).map (fun n => if n < 2 ^ 24 then n else n / 2 * 2) }
+
+theorem ply_ascii_int_through_float32_concrete :
+    ∃ ba bb, buildV1 false [(nm "id", .int)] (nm "id") (nm "id") = some ba ∧ buildV1 true [(nm "id", .int)] (nm "id") (nm "id") = some bb ∧
+      ba.readAscii narrowCoding [showInt 16777217] = .ok [16777216] ∧
+      bb.readBin narrowCoding .le (put32 .le (ofInt32 16777217)) = .ok [16777217] :=
+  ⟨_, _, rfl, rfl, by decide, by decide⟩
 
 /-- `property uchar intensity` (unrecognised scalar): binary loads `b/255`, ASCII loads the raw number
 (same root cause as the C04 known finding; witness `c08.holds.uchar_scalar_ascii_witness`) -/
@@ -128,10 +193,20 @@ theorem ply_ascii_uchar_scalar_not_normalised (c : Coding α) (e : Endian) (q : 
     (hparse : c.parseF (showNat k.toNat) = some x) :
     ∃ ba bb, buildV1 false [(q, .uchar)] q q = some ba ∧ buildV1 true [(q, .uchar)] q q = some bb ∧
       ba.readAscii c [showNat k.toNat] = .ok [x] ∧
-      bb.readBin c e [k] = .ok [c.div255 (c.ofInt k.toNat)] := by
-  refine ⟨⟨q, [q], [0], none⟩, ⟨q, [q], [0], some .uchar⟩, by simp [buildV1, buildV1.go], by simp [buildV1, buildV1.go], ?_, ?_⟩
+      bb.readBin c e [k] = .ok [c.div255 (c.ofInt k.toNat)] ∧
+      (x ≠ c.div255 (c.ofInt k.toNat) → ba.readAscii c [showNat k.toNat] ≠ bb.readBin c e [k]) := by
+  refine ⟨⟨q, [q], [0], none⟩, ⟨q, [q], [0], some .uchar⟩, by simp [buildV1, buildV1.go], by simp [buildV1, buildV1.go], ?_, ?_, ?_⟩
   · simp [Built.readAscii, hparse, pure, Except.pure, bind, Except.bind]
   · simp [Built.readBin, decScalarBin, Coding.norm8, pure, Except.pure, bind, Except.bind]
+  · intro hne
+    simp [Built.readAscii, Built.readBin, decScalarBin, Coding.norm8, hparse, pure, Except.pure, bind, Except.bind, hne]
+
+/-- a real counterexample: `property uchar intensity` = 255 loads as 255 from ASCII and as 1 from binary -/
+theorem ply_ascii_uchar_scalar_not_normalised_concrete :
+    ∃ ba bb, buildV1 false [(nm "intensity", .uchar)] (nm "intensity") (nm "intensity") = some ba ∧
+      buildV1 true [(nm "intensity", .uchar)] (nm "intensity") (nm "intensity") = some bb ∧
+      ba.readAscii toyCoding [showNat 255] = .ok [255] ∧ bb.readBin toyCoding .be [255] = .ok [1] :=
+  ⟨_, _, rfl, rfl, by decide, by decide⟩
 
 /-! ### the composed statement (residue) -/
 
